@@ -67,18 +67,38 @@ def rand_prbm_params(rng, n, h, a, scale, d_zero=False):
     }
 
 
-def set_rbm(rbm, p):
-    rbm.weights.data = torch.tensor(p["W"], dtype=torch.double).reshape(rbm.num_hidden, rbm.num_visible)
-    rbm.visible_bias.data = torch.tensor(p["b"], dtype=torch.double)
-    rbm.hidden_bias.data = torch.tensor(p["c"], dtype=torch.double)
+def _via_module(am):
+    """about every third state (decided by a checksum of its amplitude parameters, so that a replayed case takes the same
+    path) is built through the `module=` constructor branch (user-supplied RBM) instead of the sizes branch, and its
+    parameters are then written IN PLACE, so that aliasing between the amplitude and phase networks, or any difference
+    between the two construction paths, shows up in every harness that uses these builders"""
+    import json
+    import zlib
+    return zlib.crc32(json.dumps(am, sort_keys=True, default=lambda o: getattr(o, "tolist", lambda: str(o))()).encode()) % 3 == 0
 
 
-def set_prbm(rbm, p):
-    rbm.weights_W.data = torch.tensor(p["W"], dtype=torch.double).reshape(rbm.num_hidden, rbm.num_visible)
-    rbm.weights_U.data = torch.tensor(p["U"], dtype=torch.double).reshape(rbm.num_aux, rbm.num_visible)
-    rbm.visible_bias.data = torch.tensor(p["b"], dtype=torch.double)
-    rbm.hidden_bias.data = torch.tensor(p["c"], dtype=torch.double)
-    rbm.aux_bias.data = torch.tensor(p["d"], dtype=torch.double)
+def set_rbm(rbm, p, inplace=False):
+    W = torch.tensor(p["W"], dtype=torch.double).reshape(rbm.num_hidden, rbm.num_visible)
+    b = torch.tensor(p["b"], dtype=torch.double)
+    c = torch.tensor(p["c"], dtype=torch.double)
+    if inplace:
+        rbm.weights.data.copy_(W); rbm.visible_bias.data.copy_(b); rbm.hidden_bias.data.copy_(c)
+    else:
+        rbm.weights.data = W; rbm.visible_bias.data = b; rbm.hidden_bias.data = c
+
+
+def set_prbm(rbm, p, inplace=False):
+    W = torch.tensor(p["W"], dtype=torch.double).reshape(rbm.num_hidden, rbm.num_visible)
+    U = torch.tensor(p["U"], dtype=torch.double).reshape(rbm.num_aux, rbm.num_visible)
+    b = torch.tensor(p["b"], dtype=torch.double)
+    c = torch.tensor(p["c"], dtype=torch.double)
+    d = torch.tensor(p["d"], dtype=torch.double)
+    if inplace:
+        rbm.weights_W.data.copy_(W); rbm.weights_U.data.copy_(U); rbm.visible_bias.data.copy_(b)
+        rbm.hidden_bias.data.copy_(c); rbm.aux_bias.data.copy_(d)
+    else:
+        rbm.weights_W.data = W; rbm.weights_U.data = U; rbm.visible_bias.data = b
+        rbm.hidden_bias.data = c; rbm.aux_bias.data = d
 
 
 def pbits(p):
@@ -87,12 +107,21 @@ def pbits(p):
 
 
 def make_positive(n, h, am):
+    if _via_module(am):
+        st = PositiveWaveFunction(n, gpu=False, module=BinaryRBM(n, h, gpu=False))
+        set_rbm(st.rbm_am, am, inplace=True)
+        return st
     st = PositiveWaveFunction(n, h, gpu=False)
     set_rbm(st.rbm_am, am)
     return st
 
 
 def make_complex(n, h, am, ph, unitary_dict=None):
+    if _via_module(am):
+        st = ComplexWaveFunction(n, unitary_dict=unitary_dict, gpu=False, module=BinaryRBM(n, h, gpu=False))
+        set_rbm(st.rbm_am, am, inplace=True)
+        set_rbm(st.rbm_ph, ph, inplace=True)  # written last: would clobber the amplitude network if the two were aliased
+        return st
     st = ComplexWaveFunction(n, h, gpu=False, unitary_dict=unitary_dict)
     set_rbm(st.rbm_am, am)
     set_rbm(st.rbm_ph, ph)
@@ -100,6 +129,11 @@ def make_complex(n, h, am, ph, unitary_dict=None):
 
 
 def make_density(n, h, a, am, ph, unitary_dict=None):
+    if _via_module(am):
+        st = DensityMatrix(n, unitary_dict=unitary_dict, gpu=False, module=PurificationRBM(n, h, a, gpu=False))
+        set_prbm(st.rbm_am, am, inplace=True)
+        set_prbm(st.rbm_ph, ph, inplace=True)
+        return st
     st = DensityMatrix(n, h, a, gpu=False, unitary_dict=unitary_dict)
     set_prbm(st.rbm_am, am)
     set_prbm(st.rbm_ph, ph)
